@@ -227,8 +227,12 @@ static std::vector<std::pair<size_t, size_t> > records(const Bytes& f) {
 
 struct Got { int idx; bool same; bool hasts; long sec, usec; };
 struct Reader {
-    std::vector<Frame>* fr; int n;
+    std::vector<Frame>* fr; int n; bool raw; int last;
     Got see(PDU* p, const Timestamp* ts) {
+        if (raw) {   // set_extract_raw_pdus(true): every record comes back as a RawPDU holding its bytes - identified by them, in file order
+            Got g; g.idx = 0; g.same = false; const RawPDU* r = p->pdu_type() == PDU::RAW ? static_cast<const RawPDU*>(p) : 0;
+            if (r && !r->inner_pdu()) for (int j = last; j < n; ++j) if ((*fr)[j].wok && (*fr)[j].bytes == r->payload()) { g.idx = j + 1; g.same = true; last = j + 1; break; }
+            g.hasts = ts != 0; g.sec = ts ? (long)ts->seconds() : 0; g.usec = ts ? (long)ts->microseconds() : 0; return g; }
         Got g; Bytes c = canon(*p); g.idx = identify(*fr, c);
         g.same = g.idx > 0 && (*fr)[g.idx - 1].can == c; g.hasts = ts != 0; g.sec = ts ? (long)ts->seconds() : 0; g.usec = ts ? (long)ts->microseconds() : 0; return g; }
 };
@@ -289,7 +293,8 @@ static void scenario(const vh::Json& sc, vh::Out& out, vh::Rng& rng, const vh::A
               ++i; }
           for (size_t x = 0; x < fl.size(); ++x) if (fl[x] != 0 && lok[x]) pcap_freecode(&lprog[x]);
           pcap_close(p); } }
-    { vh::W w; w.O().kv("e", "file").kv("flt", dlt_name(file_dlt)).kv("fok", fok).kv("filt", fid != 0).kv("wexc", wexc).key("fr").A();
+    const bool rawmode = sc.has("raw") && sc["raw"].truth();
+    { vh::W w; w.O().kv("e", "file").kv("raw", rawmode).kv("flt", dlt_name(file_dlt)).kv("fok", fok).kv("filt", fid != 0).kv("wexc", wexc).key("fr").A();
       for (int i = 0; i < n; ++i) { w.O().kv("cls", fr[i].cls).kv("m", fr[i].m).kv("sec", fr[i].sec).kv("usec", fr[i].usec).kv("w", fr[i].how).kv("wok", fr[i].wok).kv("want", fr[i].want).kv("why", fr[i].foreign).key("mm").A(); for (size_t x = 0; x < fl.size(); ++x) w.v(mm[i][x] != 0); w.E(); w.E(); }
       w.E().key("fokl").A(); for (size_t x = 0; x < fl.size(); ++x) w.v(lok[x] != 0); w.E().E(); out.event(w); }
 
@@ -301,10 +306,14 @@ static void scenario(const vh::Json& sc, vh::Out& out, vh::Rng& rng, const vh::A
         if (omode == 0) sn.reset(new FileSniffer(pf, cfg));
         else if (omode == 1) sn.reset(new FileSniffer(pf, std::string(FILTERS[fid])));        // "" installs the empty filter: everything matches
         else { FILE* fp = fopen(pf.c_str(), "rb"); if (omode == 2) sn.reset(new FileSniffer(fp, cfg)); else sn.reset(new FileSniffer(fp, std::string(FILTERS[fid]))); }
+        // half of the readers are handed on by move construction (as a factory function returns them); raw extraction is switched
+        // on BEFORE that, as a configuration step of the factory
+        if (rawmode) sn->set_extract_raw_pdus(true);
+        if (rng.coin()) { std::unique_ptr<FileSniffer> moved(new FileSniffer(std::move(*sn))); sn.swap(moved); }
     } catch (std::exception& e) { oexc = exc_name(e); }
     { vh::W w; w.O().kv("e", "open").kv("ok", sn.get() != 0).kv("exc", oexc).kv("mode", omode).E(); out.event(w); }
     if (sn && fok) {
-        Reader rd; rd.fr = &fr; rd.n = n;
+        Reader rd; rd.fr = &fr; rd.n = n; rd.raw = rawmode; rd.last = 0;
         Packet kept = Packet(RawPDU("previously kept"), Timestamp(timeval{77, 77}));
         const vh::Json& calls = sc["calls"];
         for (size_t c = 0; c < calls.size(); ++c) {
